@@ -39,7 +39,7 @@ SelSetR = RefS('SelSet')
 MbxR = RefS('Mbx', mailbox_id=Oid, readonly=BOOL, selected_set=SelSetR, uid_validity=INT,
             permanent_flags=SetS(Flag), session_flags=SetS(Flag))
 MSET = RecS('MailboxSet')
-CFG = RecS('Config')
+CFG = RecS('Config', disable_search_keys=RefS('KeyList'))
 SESSION = RecS('BaseSession', pyclass=(F, 'BaseSession'), mailbox_set=MSET, config=CFG)
 AppendR = RefS('AppendMsg')
 SeqSetS = SELM.SeqSetS
@@ -388,7 +388,18 @@ def _add_recent_site(ex, frame, e, base=None):
     return _add_recent(ex, frame, e, base if base is not None else ex.eval(e.func.value, frame))
 
 
+def _search_set(ex, frame, e, base=None):
+    ex.eval_args(e, frame)
+    r = RefS('SearchSet', sequence_set=RefS('SeqSetRef')).fresh('search')
+    return r
+
+
 CALLS = {
+    'FetchRequirement.reduce': lambda ex, frame, e, base=None: RefS('Req').fresh('req'),
+    'SearchParams': lambda ex, frame, e, base=None: (ex.eval_args(e, frame), RefS('SearchParams').fresh('params'))[1],
+    'SearchCriteriaSet': _search_set,
+    'search.matches': lambda ex, frame, e, base=None: (ex.eval_args(e, frame), BOOL.fresh('matches'))[1],
+    'msg.load_content': lambda ex, frame, e, base=None: RefS('Loaded').fresh('loaded'),
     'dest_selected.session_flags.add_recent': _add_recent_site,
     'SelectedMailbox': _sel_ctor, 'PermanentFlags': _rec_ctor(FL.PermS), 'SessionFlags': _rec_ctor(FL.SessS),
     'AppendUid': _appenduid_ctor, 'CopyUid': _copyuid_ctor,
@@ -440,6 +451,7 @@ def make(prop):
         ('copy_messages', dict(P, sequence_set=SeqSetS, mailbox=NameR), copy_loop),
         ('move_messages', dict(P, sequence_set=SeqSetS, mailbox=NameR), copy_loop),
         ('fetch_messages', dict(P, sequence_set=SeqSetS, set_seen=BOOL), loop0),
+        ('search_mailbox', dict(P, keys=RefS('SearchKeys')), loop0),
         ('append_messages', dict(self=SESSION, name=NameR, messages=ListS(AppendR), selected=SEL), append_loop),
         ('check_mailbox', dict(P, wait_on=NoneS(), housekeeping=BOOL), {}),
         ('select_mailbox', dict(self=SESSION, name=NameR, readonly=BOOL), {}),
